@@ -13,9 +13,9 @@ import (
 // C15 runs its own histories with the same monitors).
 
 type idState struct {
-	seen    []int    // per replica: number of pending operations already examined
+	seen    []int     // per replica: number of pending operations already examined
 	maxSeen []crdt.TS // per replica: greatest foreign timestamp applied so far
-	scanned []int    // per replica: log entries scanned for maxSeen
+	scanned []int     // per replica: log entries scanned for maxSeen
 	checked int64
 }
 
@@ -42,7 +42,7 @@ func (st *idState) step(c *core.Case, h *crdt.Hist, r *crdt.Rep) (string, string
 		if op.ID.Seq != uint64(k+1) {
 			return "id:seq-gap", fmt.Sprintf("r%d: pending operation at position %d carries seq %d (expected %d): client sequence numbers are not 1,2,3,...", i, k, op.ID.Seq, k+1)
 		}
-		if op.ID.CUID != r.CUID() {
+		if k > 0 && op.ID.CUID != r.CUID() { // position 0 is the creation snapshot operation
 			return "id:foreign-cuid", fmt.Sprintf("r%d: pending operation %d carries cuid %s", i, k, op.ID.CUID)
 		}
 		if k > 0 && !(pend[k-1].ID.Lamport < op.ID.Lamport) {
